@@ -152,6 +152,12 @@ class SrcScenario:
         if kind == "WRONGSEQ":
             cc = rigs.pdu_conf(self.ids, self.mode, seq=self.ids.other_seq)
             return self._deliver(rigs.finished(cc), ("WRONGSEQ",))
+        if kind == "WRONGSEQLOW":
+            # a PDU of an EARLIER transaction (lower sequence number), e.g. a late repeated Finished PDU
+            from spacepackets.util import UnsignedByteField
+            low = UnsignedByteField(c.transaction_seq_num.value - 1, c.transaction_seq_num.byte_len)
+            cc = rigs.pdu_conf(self.ids, self.mode, seq=low)
+            return self._deliver(rigs.finished(cc), ("WRONGSEQLOW",))
         if kind == "WRONGSRC":
             cc = rigs.pdu_conf(self.ids, self.mode, src=self.ids.other_entity, seq=c.transaction_seq_num)
             return self._deliver(rigs.finished(cc), ("WRONGSRC",))
